@@ -48,6 +48,8 @@ def build_plan(spec, world):
     for g in shared:
         g.load()
     opts = [W.BASE_OPT] + rng.sample(W.OPT_VARIANTS[1:], spec['nopts'] - 1)
+    if rng.random() < 0.6 and W.OPT_VARIANTS[2] not in opts:
+        opts.append(W.OPT_VARIANTS[2])       # differs from the base only in user_requested (= what callees get)
     private = {}
     # private (droppable) groups; in the `equal` flavours several threads exec the very same text
     twin_params = {'g': rng.randrange(1, 50), 'c': rng.randrange(1, 9), 'd': rng.randrange(1, 9)}
@@ -80,7 +82,7 @@ def build_plan(spec, world):
                 gi, g = 'p', private[t]
             else:
                 gi = rng.randrange(len(shared)); g = shared[gi]
-            nf = {'closure': 4, 'loop': 4, 'directive': 2, 'directive_closure': 2, 'method': 3, 'lambda': 2,
+            nf = {'closure': 5, 'loop': 4, 'directive': 2, 'directive_closure': 2, 'method': 3, 'lambda': 2,
                   'broken': 2}[g.kind]
             fi = rng.randrange(nf)
             opt = rng.choice(opts)
@@ -254,6 +256,21 @@ def run_witness(name):
                 g = world.new_group('directive', {'g': 5, 'c': 1})
                 h1, h2 = g.load()
                 req(h2, j=0); req(h1, j=1)
+            elif name in ('ureq-callee-first', 'ureq-direct-first', 'ureq-call-then-graph', 'ureq-graph-then-call'):
+                # one function under option sets that differ only in user_requested, in both orders
+                g = world.new_group('closure', {'g': 4, 'c': 1, 'd': 2})
+                fns = g.load()
+                f, helper = fns[0], fns[4]
+                uF = (True, False, True, ())
+                if name == 'ureq-callee-first':
+                    req(f, j=0)                      # converts f; calling it converts helper as a callee
+                    req(helper, j=1)                 # then helper directly (user_requested=True)
+                elif name == 'ureq-direct-first':
+                    req(helper, j=0); req(f, j=1); req(helper, uF, 'converted_call', j=2)
+                elif name == 'ureq-call-then-graph':
+                    req(f, uF, 'converted_call', j=0); req(f, j=1); req(f, W.BASE_OPT, 'convert', j=2)
+                else:
+                    req(f, j=0); req(f, uF, 'converted_call', j=1); req(f, uF, 'actual', j=2)
             elif name == 'equal-twice':
                 # exec the same source twice: c1 == c2, c1 is not c2
                 g1 = world.new_group('closure', {'g': 3, 'c': 2, 'd': 4}, name='tw')
@@ -313,6 +330,7 @@ def run_witness(name):
 WITNESSES = {
     'sig-globals': CLS_SIG, 'sig-closure': CLS_SIG, 'sig-reverse': None,
     'equal-twice': CLS_EQ, 'equal-keyerror': CLS_EQ, 'equal-annotations': CLS_EQ,
+    'ureq-callee-first': None, 'ureq-direct-first': None, 'ureq-call-then-graph': None, 'ureq-graph-then-call': None,
 }
 
 
